@@ -344,6 +344,8 @@ def mux_check(prop, tier, seed, replay):
                         "C10": "MC_MuxSched_adv.cfg"}.get(prop, "MC_MuxSched.cfg")
                 if prop in ("C13", "C15", "C10"):
                     nb = 40 if tier == "quick" else 1200
+                if prop == "C11":
+                    nb = 50 if tier == "quick" else 1500
                 # a different simulation seed per property: the checks of the family explore different behaviours
                 sch, nstates = tlc_sched.schedules(nb, 70, seed * 37 + int(prop[1:]), cfg=scfg)
                 if not sch:
